@@ -78,4 +78,7 @@ STATELESS = [
     ("html5lib.filters.whitespace", "Filter", ("C17",)),
     ("html5lib.filters.alphabeticalattributes", "Filter", ("C18", "C07")),
     ("html5lib._ihatexml", "InfosetFilter", ()),
+    # the byte prescan: its per-element handlers communicate through `encoding` (the result) and the cursor in `data`
+    # only; anything else written would carry state from one element of the prescanned bytes to the next
+    ("html5lib._inputstream", "EncodingParser", ("C06",), ("encoding", "data")),
 ]
